@@ -1,10 +1,205 @@
 import DS.Lemmas.Lattice
 
-namespace DS.Props.C01
-open DS
+/-!
+# C01 — fractional and Cartesian descriptions of a lattice are the same geometry
 
-/-- placeholder while the harness is brought up (replaced below) -/
-theorem setLatBase_total (L : Lattice ℝ) (B : Mat3 ℝ) : L.setLatBase B = Lattice.ofBase B :=
-  Lattice.setLatBase_eq L B
+All statements are over ℝ about the scalar-generic model `DS.Lattice` (`DS/Model/Lattice.lean`), whose
+`Float` instance is compared with `diffpy.structure.lattice.Lattice` on every run (`harness/c01.py`).
+
+Hypotheses are explicit:
+* `Lattice.ValidCS p` : `a b c > 0`; per angle `s² + c² = 1`, `s > 0`; `V² = 1 + 2·ca·cb·cg − ca² − cb² − cg²`, `V > 0`;
+* `Lattice.IsRot Q`   : `Q·Qᵀ = 1`, `det Q = 1`;  `Lattice.Valid p Q` is the conjunction;
+* `Lattice.ValidPar a b c α β γ` : the same for a cell given in degrees (`0 < α,β,γ < 180`, positive volume);
+  `valid_of_angles` turns it into `Valid` for the data `setLatPar` computes with `cosd`/`sind`;
+* `0 < det B` for `setLatBase`; `ofBase_sound` shows that every such base is `ofCS` of valid data with a proper
+  rotation, so every theorem below applies to it (`*_ofBase` corollaries).
+-/
+namespace DS.Props.C01
+open DS DS.Lattice Real
+
+/-! ## bridging: the hypotheses hold for every cell given by parameters and for every right-handed base -/
+
+/-- `Lattice(a,b,c,α,β,γ,baserot=Q)` is `ofCS` of valid data -/
+theorem valid_of_angles {a b c al be ga : ℝ} {Q : Mat3 ℝ} (h : ValidPar a b c al be ga) (hQ : IsRot Q) :
+    Valid (csOfPar a b c al be ga) Q ∧ ofPar a b c al be ga Q = ofCS (csOfPar a b c al be ga) Q :=
+  ⟨valid_ofPar h hQ, rfl⟩
+
+/-- soundness of `setLatBase` / `Lattice(base=B)` for every `B` with `det B > 0`: the recovered lengths,
+cosines, sines and volume are valid, `baserot` is a proper rotation, `stdbase·baserot = B`, `base = B`,
+`recbase = B⁻¹`, and the object is the one `setLatPar` builds from these data -/
+theorem ofBase_sound {B : Mat3 ℝ} (hB : 0 < B.det) :
+    Valid (csOfBase B) (ofBase B).baserot ∧ ofBase B = ofCS (csOfBase B) (ofBase B).baserot ∧
+    (ofBase B).base = B ∧ (ofBase B).stdbase.mul (ofBase B).baserot = B ∧
+    (ofBase B).baserot.mul (ofBase B).baserot.transpose = Mat3.one ∧ (ofBase B).baserot.det = 1 ∧
+    B.mul B.transpose = (ofBase B).metrics := by
+  obtain ⟨hv, h⟩ := Lattice.ofBase_sound hB
+  have hr : (ofBase B).baserot = (S0 (csOfBase B)).inv.mul B := by rw [h]; rfl
+  rw [hr]
+  refine ⟨hv, h, rfl, ?_, hv.rot.orth, hv.rot.det_one, (csOfBase_valid hB).2⟩
+  rw [← hr]; exact ofBase_std_rot hB
+
+/-! ## the theorems (for `L = ofCS p Q` with `Valid p Q`) -/
+
+theorem base_mul_recbase {p : CellCS ℝ} {Q : Mat3 ℝ} (h : Valid p Q) :
+    (ofCS p Q).base.mul (ofCS p Q).recbase = Mat3.one := Lattice.base_mul_recbase h
+
+theorem recbase_mul_base {p : CellCS ℝ} {Q : Mat3 ℝ} (h : Valid p Q) :
+    (ofCS p Q).recbase.mul (ofCS p Q).base = Mat3.one := Lattice.recbase_mul_base h
+
+/-- converting to Cartesian and back is the identity -/
+theorem frac_cart {p : CellCS ℝ} {Q : Mat3 ℝ} (h : Valid p Q) (u : Vec3 ℝ) :
+    (ofCS p Q).fractional ((ofCS p Q).cartesian u) = u := Lattice.frac_cart h u
+
+theorem cart_frac {p : CellCS ℝ} {Q : Mat3 ℝ} (h : Valid p Q) (r : Vec3 ℝ) :
+    (ofCS p Q).cartesian ((ofCS p Q).fractional r) = r := Lattice.cart_frac h r
+
+/-- the metric tensor as written in the code is the Gram matrix of the base vectors -/
+theorem metrics_eq_gram {p : CellCS ℝ} {Q : Mat3 ℝ} (h : Valid p Q) :
+    (ofCS p Q).metrics = (ofCS p Q).base.mul (ofCS p Q).base.transpose := Lattice.metrics_eq_gram h
+
+theorem dot_eq {p : CellCS ℝ} {Q : Mat3 ℝ} (h : Valid p Q) (u v : Vec3 ℝ) :
+    (ofCS p Q).dot u v = Vec3.dot ((ofCS p Q).cartesian u) ((ofCS p Q).cartesian v) := Lattice.dot_eq h u v
+
+/-- `norm` is the Euclidean length of the Cartesian image, and agrees with the metric tensor -/
+theorem norm_eq {p : CellCS ℝ} {Q : Mat3 ℝ} (h : Valid p Q) (u : Vec3 ℝ) :
+    (ofCS p Q).norm u = Real.sqrt (Vec3.dot ((ofCS p Q).cartesian u) ((ofCS p Q).cartesian u)) ∧
+    (ofCS p Q).norm u ^ 2 = (ofCS p Q).dot u u := ⟨rfl, Lattice.norm_sq h u⟩
+
+/-- `dist` is the Euclidean distance of the Cartesian images -/
+theorem dist_eq (L : Lattice ℝ) (u v : Vec3 ℝ) :
+    L.dist u v = Real.sqrt (Vec3.dot (Vec3.sub (L.cartesian u) (L.cartesian v)) (Vec3.sub (L.cartesian u) (L.cartesian v))) :=
+  Lattice.dist_eq L u v
+
+/-- `angle` is the Euclidean angle (in degrees) of the Cartesian images; the clip to [−1,1] never acts (Cauchy–Schwarz) -/
+theorem angle_eq {p : CellCS ℝ} {Q : Mat3 ℝ} (h : Valid p Q) (u v : Vec3 ℝ) :
+    (ofCS p Q).angle u v =
+      Real.arccos (Vec3.dot ((ofCS p Q).cartesian u) ((ofCS p Q).cartesian v) /
+        (Real.sqrt (Vec3.dot ((ofCS p Q).cartesian u) ((ofCS p Q).cartesian u)) *
+         Real.sqrt (Vec3.dot ((ofCS p Q).cartesian v) ((ofCS p Q).cartesian v)))) * 180 / π :=
+  Lattice.angle_eq h u v
+
+/-- the base vectors have exactly the lengths given -/
+theorem row_norms {p : CellCS ℝ} {Q : Mat3 ℝ} (h : Valid p Q) :
+    Real.sqrt (Vec3.dot (ofCS p Q).base.row1 (ofCS p Q).base.row1) = p.a ∧
+    Real.sqrt (Vec3.dot (ofCS p Q).base.row2 (ofCS p Q).base.row2) = p.b ∧
+    Real.sqrt (Vec3.dot (ofCS p Q).base.row3 (ofCS p Q).base.row3) = p.c := Lattice.row_norms h
+
+/-- the base vectors have exactly the mutual angles given: `b·c = |b||c| cos α`, … -/
+theorem row_angles {p : CellCS ℝ} {Q : Mat3 ℝ} (h : Valid p Q) :
+    Vec3.dot (ofCS p Q).base.row2 (ofCS p Q).base.row3 = p.b * p.c * p.ca ∧
+    Vec3.dot (ofCS p Q).base.row1 (ofCS p Q).base.row3 = p.a * p.c * p.cb ∧
+    Vec3.dot (ofCS p Q).base.row1 (ofCS p Q).base.row2 = p.a * p.b * p.cg := by
+  obtain ⟨-, -, -, h23, h13, h12⟩ := Lattice.row_dots h
+  exact ⟨h23, h13, h12⟩
+
+/-- duality: `aᵢ · a*ⱼ = δᵢⱼ` for the rows `aᵢ` of `base` and the rows `a*ⱼ` of `recbaseᵀ` -/
+theorem recbase_dual {p : CellCS ℝ} {Q : Mat3 ℝ} (h : Valid p Q) :
+    let B := (ofCS p Q).base
+    let R := (ofCS p Q).recbase.transpose
+    Vec3.dot B.row1 R.row1 = 1 ∧ Vec3.dot B.row1 R.row2 = 0 ∧ Vec3.dot B.row1 R.row3 = 0 ∧
+    Vec3.dot B.row2 R.row1 = 0 ∧ Vec3.dot B.row2 R.row2 = 1 ∧ Vec3.dot B.row2 R.row3 = 0 ∧
+    Vec3.dot B.row3 R.row1 = 0 ∧ Vec3.dot B.row3 R.row2 = 0 ∧ Vec3.dot B.row3 R.row3 = 1 := by
+  intro B R
+  have hm := Lattice.base_mul_recbase h
+  exact ⟨congrArg Mat3.a11 hm, congrArg Mat3.a12 hm, congrArg Mat3.a13 hm, congrArg Mat3.a21 hm, congrArg Mat3.a22 hm,
+    congrArg Mat3.a23 hm, congrArg Mat3.a31 hm, congrArg Mat3.a32 hm, congrArg Mat3.a33 hm⟩
+
+/-- `rnorm hkl` is the Euclidean length of the Cartesian reciprocal vector `h* = hkl·recbaseᵀ`, which is
+characterised by `h*·cart u = hkl·u`; along the axes it gives the reciprocal cell lengths, and the Gram matrix of
+the reciprocal base is the metric tensor of the reciprocal cell parameters -/
+theorem rnorm_eq {p : CellCS ℝ} {Q : Mat3 ℝ} (h : Valid p Q) (hkl : Vec3 ℝ) :
+    (ofCS p Q).rnorm hkl = Real.sqrt (Vec3.dot (Mat3.vecMul hkl (ofCS p Q).recbase.transpose) (Mat3.vecMul hkl (ofCS p Q).recbase.transpose)) ∧
+    (∀ u, Vec3.dot (Mat3.vecMul hkl (ofCS p Q).recbase.transpose) ((ofCS p Q).cartesian u) = Vec3.dot hkl u) ∧
+    (ofCS p Q).rnorm ⟨1, 0, 0⟩ = (ofCS p Q).ar ∧ (ofCS p Q).rnorm ⟨0, 1, 0⟩ = (ofCS p Q).br ∧
+    (ofCS p Q).rnorm ⟨0, 0, 1⟩ = (ofCS p Q).cr ∧
+    (ofCS p Q).recbase.transpose.mul (ofCS p Q).recbase.transpose.transpose =
+      metricsOf (ofCS p Q).ar (ofCS p Q).br (ofCS p Q).cr (ofCS p Q).car (ofCS p Q).cbr (ofCS p Q).cgr := by
+  obtain ⟨r1, r2, r3⟩ := Lattice.rnorm_axes h
+  exact ⟨rfl, fun u => Lattice.recip_pairing h hkl u, r1, r2, r3, Lattice.recip_gram h⟩
+
+/-- `a·b·c·V = det base`, and for a cell given in degrees `volume = det base` -/
+theorem volume_eq_det {p : CellCS ℝ} {Q : Mat3 ℝ} (h : Valid p Q) :
+    p.a * p.b * p.c * p.V = (ofCS p Q).base.det := (Lattice.base_det h).symm
+
+theorem volume_eq_det_ofPar {a b c al be ga : ℝ} {Q : Mat3 ℝ} (h : ValidPar a b c al be ga) (hQ : IsRot Q) :
+    (ofPar a b c al be ga Q).volume = (ofPar a b c al be ga Q).base.det := Lattice.volume_eq_det h hQ
+
+/-- the exact values in `_EXACT_COSD` are the true cosines -/
+theorem cosd_table_exact : ∀ e ∈ cosdTable, (Elem.cosd e.1 : ℝ) = e.2 := Lattice.cosd_table_exact
+
+/-- reducing the argument modulo 360 before the lookup is sound, and `sind x = cosd (90 − x)` -/
+theorem cosd_periodic (x : ℝ) (k : ℤ) : (Elem.cosd (x + 360 * k) : ℝ) = Elem.cosd x := Lattice.cosd_periodic x k
+
+theorem sind_eq_cosd (x : ℝ) : (Elem.sind x : ℝ) = Elem.cosd (90 - x) := Lattice.sind_eq_cosd x
+
+/-- a multiple of the unit isotropic tensor is never reported anisotropic (deviation exactly 0) -/
+theorem isotropic_udev {p : CellCS ℝ} (Q : Mat3 ℝ) (s : ℝ) :
+    (ofCS p Q).udev (Mat3.smul s (ofCS p Q).isotropicunit) = Mat3.zero :=
+  Lattice.udev_isotropic _ (Lattice.isounit_diag p _) s
+
+/-! ## corollaries for lattices given by base vectors -/
+
+theorem frac_cart_ofBase {B : Mat3 ℝ} (hB : 0 < B.det) (u : Vec3 ℝ) :
+    (ofBase B).fractional ((ofBase B).cartesian u) = u ∧ (ofBase B).cartesian ((ofBase B).fractional u) = u := by
+  obtain ⟨hv, h, -⟩ := ofBase_sound hB
+  rw [h]; exact ⟨Lattice.frac_cart hv u, Lattice.cart_frac hv u⟩
+
+theorem dot_eq_ofBase {B : Mat3 ℝ} (hB : 0 < B.det) (u v : Vec3 ℝ) :
+    (ofBase B).dot u v = Vec3.dot (Mat3.vecMul u B) (Mat3.vecMul v B) := by
+  obtain ⟨hv, h, -⟩ := ofBase_sound hB
+  have := Lattice.dot_eq hv u v
+  rw [← h] at this
+  exact this
+
+theorem volume_eq_det_ofBase {B : Mat3 ℝ} (hB : 0 < B.det) : (ofBase B).volume = B.det := by
+  have hw := wf_ofBase hB
+  have h := Lattice.volume_eq_det hw.par hw.rot
+  rw [← hw.coherent] at h
+  exact h
+
+/-! ## non-vacuity -/
+
+/-- the rational cell `a,b,c = 3,4,5`, `α = β = 90°`, `cos γ = 3/5`, `sin γ = 4/5`, `V = 4/5` -/
+noncomputable def exCell : CellCS ℝ :=
+  { a := 3, b := 4, c := 5, alpha := 90, beta := 90, gamma := 0, ca := 0, cb := 0, cg := 3 / 5, sa := 1, sb := 1, sg := 4 / 5, V := 4 / 5 }
+
+/-- rotation by 90° about z -/
+def exRot : Mat3 ℝ := ⟨0, 1, 0, -1, 0, 0, 0, 0, 1⟩
+
+theorem exCell_valid : ValidCS exCell := by
+  constructor <;> simp only [exCell] <;> norm_num
+
+theorem exRot_isRot : IsRot exRot := by
+  constructor
+  · apply Mat3.ext' <;> simp [Mat3.mul, Mat3.transpose, Mat3.one, exRot]
+  · simp [Mat3.det, exRot]
+
+/-- `Valid` is satisfiable: standard orientation and a rotated copy -/
+example : Valid exCell Mat3.one ∧ Valid exCell exRot := ⟨⟨exCell_valid, isRot_one⟩, ⟨exCell_valid, exRot_isRot⟩⟩
+
+/-- the theorems apply to it, e.g. the round trip and the row dot product `a·b = 3·4·(3/5)` -/
+example (u : Vec3 ℝ) : (ofCS exCell exRot).fractional ((ofCS exCell exRot).cartesian u) = u :=
+  frac_cart ⟨exCell_valid, exRot_isRot⟩ u
+
+example : Vec3.dot (ofCS exCell exRot).base.row1 (ofCS exCell exRot).base.row2 = 3 * 4 * (3 / 5) :=
+  (row_angles ⟨exCell_valid, exRot_isRot⟩).2.2
+
+theorem cos60 : Real.cos ((60 : ℝ) * π / 180) = 1 / 2 := by
+  rw [show (60 : ℝ) * π / 180 = π / 3 by ring]; exact Real.cos_pi_div_three
+theorem cos90 : Real.cos ((90 : ℝ) * π / 180) = 0 := by
+  rw [show (90 : ℝ) * π / 180 = π / 2 by ring]; exact Real.cos_pi_div_two
+
+/-- `ValidPar` is satisfiable with a non-right angle: the hexagonal-type cell 3, 4, 5, 90°, 90°, 60° -/
+theorem exPar_valid : ValidPar 3 4 5 90 90 60 := by
+  refine ⟨by norm_num, by norm_num, by norm_num, by norm_num, by norm_num, by norm_num, by norm_num, by norm_num, by norm_num, ?_⟩
+  rw [cos60, cos90]; norm_num
+
+example : Valid (csOfPar 3 4 5 90 90 60) exRot := (valid_of_angles exPar_valid exRot_isRot).1
+
+/-- a right-handed, non-orthogonal base for `ofBase_sound` -/
+def exBase : Mat3 ℝ := ⟨1, 0, 0, 1, 2, 0, 0, 1, 3⟩
+theorem exBase_det : 0 < exBase.det := by simp [Mat3.det, exBase]
+example : (ofBase exBase).base = exBase ∧ (ofBase exBase).baserot.det = 1 :=
+  ⟨(ofBase_sound exBase_det).2.2.1, (ofBase_sound exBase_det).2.2.2.2.2.1⟩
 
 end DS.Props.C01
